@@ -102,7 +102,7 @@ func TestE2EShareAcks(t *testing.T) {
 		if os.Getenv("VERIF_DEBUG") != "" {
 			fmt.Fprintf(os.Stderr, "PLAN %+v\n", p)
 		}
-		var sawGapBelow, sawRenewThenTerminal, moved, sawAutoAccept, sawCloseRelease bool
+		var sawGapBelow, sawRenewThenTerminal, sawRenewThenMark, moved, sawAutoAccept, sawCloseRelease bool
 		nearLimit := 0
 		bubble.Run(t, rt, func(e *bubble.Env) {
 			e.StartCluster(bubble.ClusterOpts{Brokers: p.Brokers, Topics: map[string]int32{"sh": p.Parts},
@@ -294,8 +294,17 @@ func TestE2EShareAcks(t *testing.T) {
 						renewThenTerminal[e2eLoc{r.Partition, r.Offset}] = true
 					case 5:
 						r.Ack(kgo.AckRenew)
-						m.lastUnacked = append(m.lastUnacked, id) // a renew alone does not persist: accepted at the next poll
 						m.lastRenewed = append(m.lastRenewed, e2eLoc{r.Partition, r.Offset})
+						if mark == 0 {
+							m.lastUnacked = append(m.lastUnacked, id) // a renew alone does not persist: accepted at the next poll
+						} else {
+							// MarkAcks follows at once. It fills in records whose status is still pending, and
+							// a renew's status returns to pending when the broker confirms it: whether the
+							// mark applies to this record (now) or the next poll accepts it (later) depends on
+							// whether that round trip has finished. Both are correct; nothing is expected of
+							// this record.
+							sawRenewThenMark = true
+						}
 					default:
 						rest = append(rest, id)
 					}
@@ -466,6 +475,9 @@ func TestE2EShareAcks(t *testing.T) {
 		ev.Class("e2e")
 		if sawGapBelow {
 			ev.Class("e2e-gap-range-on-the-wire")
+		}
+		if sawRenewThenMark {
+			ev.Class("e2e:renew-then-MarkAcks-at-once (outcome of that record not judged)")
 		}
 		if sawRenewThenTerminal {
 			ev.Class("e2e-renew-then-terminal")
